@@ -206,7 +206,7 @@ fn build_prog(t: &mut Tape) -> (Prog, Vec<&'static str>) {
     let mut p = Prog::default();
     let mut classes = vec![];
     let push = |p: &mut Prog, text: &str, kind: Kind, line_start: bool, depth: u16| {
-        p.toks.push(PTok { text: text.to_string(), kind, line_start, depth, in_anon: false, inserted: false });
+        p.toks.push(PTok { text: text.to_string(), kind, line_start, depth, in_anon: false, inserted: false, fixed_gap: None });
     };
     let n = 1 + t.below(3);
     let wrap_in_begin = t.chance(1, 2);
